@@ -125,6 +125,12 @@ func (o *WriteOpts) selection(s *Selection) *xmltree.Node {
 	var data *xmltree.Node
 	if s.Data != nil {
 		data = el("address-data")
+		if s.Data.ContentType != nil {
+			data.With("content-type", *s.Data.ContentType)
+		}
+		if s.Data.Version != nil {
+			data.With("version", *s.Data.Version)
+		}
 		if s.Data.AllProp {
 			data.Add(el("allprop"))
 		}
